@@ -1,4 +1,5 @@
 import RactorModel.Lemmas.FactoryFate
+import RactorModel.Lemmas.FactoryCountW
 
 /-!
 # C13 — Factory: every job meets exactly one fate, never runs twice
@@ -44,16 +45,62 @@ theorem dispatch_draining (w : W) (j : Job) (h : j.expired w.env.now = false)
   simp only [h, this, Bool.false_eq_true, if_false]
   exact ⟨reject_log _ _ _, trivial, trivial⟩
 
-/-! ## A worker death loses only what that incarnation held -/
 
-/-- the jobs an actor holds: the one it is handling and those in its mailbox -/
-def held (a : Actor) : List Job := (match a.running with | some j => [j] | none => []) ++ a.mailbox
+/-! ## Conservation: every accepted job is in exactly one place
+
+`total i w` counts the occurrences of job id `i` over every place a job can be: the factory's
+mailbox, the factory queue, the workers' message queues, the worker actors (running or in their
+mailbox) and the terminal fates in the history (handled, discarded with any reason — reported to
+a handler or not —, lost with a worker, dropped when the factory itself stopped). -/
+
+/-- (conservation) For every case configuration (router, queue type, discard settings, rate
+limiter, pool size) and EVERY sequence of harness steps — dispatches with arbitrary ids, keys,
+TTLs and acceptance ports, completions, worker failures and kills at any point, resizes, settings
+updates, DrainRequests, clock advances, a factory held busy and released — the number of places
+job `i` occupies equals the number of accepted dispatches with that id. -/
+theorem conservation (c : CaseCfg) (steps : List Step) (i : Nat) :
+    total i ((init c).runSteps steps) = accepted i (init c) steps := by
+  rw [total_runSteps, total_init, Nat.zero_add]
+
+/-- (exactly one fate, never twice) if job ids are not reused by the submitter, every job is in
+AT MOST one place at any time: it is never duplicated — not handled twice, not handled and also
+discarded, not discarded twice, not lost and also handled —, whatever happens. -/
+theorem at_most_one_place (c : CaseCfg) (steps : List Step) (i : Nat)
+    (huniq : steps.countP (isDispatchOp i) ≤ 1) :
+    total i ((init c).runSteps steps) ≤ 1 := by
+  rw [conservation]
+  exact Nat.le_trans (accepted_le i _ steps) huniq
+
+/-- the terminal fates of job `i` recorded in the history: at most one in total -/
+theorem at_most_one_fate (c : CaseCfg) (steps : List Step) (i : Nat)
+    (huniq : steps.countP (isDispatchOp i) ≤ 1) :
+    cTerm i ((init c).runSteps steps).env.log ≤ 1 := by
+  have h := at_most_one_place c steps i huniq
+  simp only [total, cEnv] at h
+  omega
+
+/-- (nothing disappears) an accepted job is always SOMEWHERE: waiting in the factory's mailbox,
+in the factory queue, in a worker's queue, at a worker actor, or it has met exactly one terminal
+fate. There is no step of the factory after which an accepted job is nowhere. -/
+theorem accepted_job_is_somewhere (c : CaseCfg) (steps : List Step) (i : Nat)
+    (hacc : accepted i (init c) steps = 1) :
+    total i ((init c).runSteps steps) = 1 := by
+  rw [conservation, hacc]
+
+/-- a job that was never accepted is nowhere: the factory invents no jobs -/
+theorem no_job_from_nowhere (c : CaseCfg) (steps : List Step) (i : Nat)
+    (hnone : steps.countP (isDispatchOp i) = 0) :
+    total i ((init c).runSteps steps) = 0 := by
+  have := accepted_le i (init c) steps
+  rw [conservation]; omega
+
+/-! ## A worker death loses only what that incarnation held -/
 
 /-- When actor `aid` dies exactly the jobs it held are lost (one `lost` event each), its
 supervisor is told once, and no other actor changes. -/
 theorem die_loses_only_held (e : Env) (a : Actor) (aid : Nat) (ha : e.getActor aid = some a)
     (halive : a.alive = true) :
-    (e.die aid).log = e.log ++ (held a).map (fun j => Ev.lost aid j.id) ∧
+    (e.die aid).log = e.log ++ a.heldJobs.map (fun j => Ev.lost aid j.id) ∧
     (e.die aid).sup = e.sup ++ [aid] ∧
     ∀ other, other ≠ aid → (e.die aid).getActor other = e.getActor other := by
   have haid : a.aid = aid := by
@@ -75,10 +122,25 @@ theorem dispatchJob_to_dead_keeps_job (p : WP) (e : Env) (j : Job) (a : Actor)
   unfold WP.dispatchJob Env.cast
   simp [ha, hdead]
 
+/-! ### Non-vacuity: a concrete run (queuer, one worker): job 1 handled, job 2 running -/
+def exCase : CaseCfg :=
+  { cfg := { router := .q, prioQueue := false, hasHandler := true, table := [], hasCC := false }, n := 1, disc := none, rl := none }
+def exSteps : List Step :=
+  [⟨.dispatch 1 7 0 none false, 3000000, 4000000, 5000000⟩, ⟨.dispatch 2 7 0 none false, 5000000, 6000000, 7000000⟩,
+   ⟨.finish 0 true, 7000000, 8000000, 9000000⟩]
+example : accepted 1 (init exCase) exSteps = 1 ∧ exSteps.countP (isDispatchOp 1) ≤ 1 := by decide
+example : cTerm 1 ((init exCase).runSteps exSteps).env.log = 1 := by decide
+example : cj 2 (((init exCase).runSteps exSteps).env.actors.flatMap Actor.heldJobs) = 1 := by decide
+
 end C13
 
 #print axioms C13.reject_log
 #print axioms C13.dispatch_expired
 #print axioms C13.dispatch_draining
+#print axioms C13.conservation
+#print axioms C13.at_most_one_place
+#print axioms C13.at_most_one_fate
+#print axioms C13.accepted_job_is_somewhere
+#print axioms C13.no_job_from_nowhere
 #print axioms C13.die_loses_only_held
 #print axioms C13.dispatchJob_to_dead_keeps_job
